@@ -619,11 +619,21 @@ fn enable_logging_to_file(filename: &str) -> PyResult<()> {
     Ok(())
 }
 
+/// verification hook: seed of every HashMap/HashSet the evaluator creates on this thread from now on
+#[cfg(tyberiusprime_pypipegraph2_verif)]
+#[pyfunction]
+fn verif_set_hash_seed(seed: u64) -> PyResult<()> {
+    verif_seam::set_hash_seed(seed);
+    Ok(())
+}
+
 /// A Python module implemented in Rust.
 #[pymodule]
 fn pypipegraph2(_py: Python, m: &Bound<PyModule>) -> PyResult<()> {
     m.add_function(wrap_pyfunction!(enable_logging, m)?)?;
     m.add_function(wrap_pyfunction!(enable_logging_to_file, m)?)?;
+    #[cfg(tyberiusprime_pypipegraph2_verif)]
+    m.add_function(wrap_pyfunction!(verif_set_hash_seed, m)?)?;
     m.add_class::<PyPPG2Evaluator>()?;
     Ok(())
 }
